@@ -34,6 +34,7 @@ fn main() {
         "mem" => h::eng_mem::main(rest),
         "compfs" => h::eng_compfs::main(rest),
         "rloop" => h::eng_rloop::main(rest),
+        "compw" => h::eng_compw::main(rest),
         e => {
             eprintln!("unknown engine {e}");
             std::process::exit(2);
